@@ -121,7 +121,7 @@ def _json_ok(out, v):
 
 def tojson_ok(codes: List[int], shape: int, indent: bool) -> bool:
     """
-    pre: len(codes) <= MAXLEN() and all(0 <= c < len(ALPHA_J) for c in codes) and 0 <= shape < NSHAPE
+    pre: len(codes) <= MAXLEN() and all(0 <= c < len(ALPHA_J) for c in codes) and 0 <= shape < NSHAPE and shape == P.get("shape", shape)
     post: _
     """
     s = decode(codes, ALPHA_J)
@@ -199,7 +199,7 @@ def _xmlattr_check(items, autospace):
 
 def xmlattr_key_ok(codes: List[int], vsel: int, autospace: bool, second: bool) -> bool:
     """
-    pre: 1 <= len(codes) <= MAXLEN() and all(0 <= c < len(KEYA) for c in codes) and 0 <= vsel < len(KVALS) and second == P.get("second", second)
+    pre: 1 <= len(codes) <= MAXLEN() and all(0 <= c < len(KEYA) for c in codes) and 0 <= vsel < len(KVALS) and second == P.get("second", second) and vsel == P.get("vsel", vsel) and autospace == P.get("autospace", autospace)
     post: _
     """
     # the empty key (len(codes) == 0) is excluded: see SUSPECTED_DEFECTS
@@ -218,7 +218,7 @@ def xmlattr_key_ok(codes: List[int], vsel: int, autospace: bool, second: bool) -
 
 def xmlattr_val_ok(codes: List[int], ksel: int) -> bool:
     """
-    pre: len(codes) <= MAXLEN() and all(0 <= c < len(VALA) for c in codes) and 0 <= ksel < len(VKEYS)
+    pre: len(codes) <= MAXLEN() and all(0 <= c < len(VALA) for c in codes) and 0 <= ksel < len(VKEYS) and ksel == P.get("ksel", ksel)
     post: _
     """
     val = decode(codes, VALA)
@@ -365,7 +365,7 @@ class HtmlObj:
 
 def escape_ok(codes: List[int], form: int) -> bool:
     """
-    pre: len(codes) <= MAXLEN() and all(0 <= c < len(ALPHA_E) for c in codes) and 0 <= form < 3
+    pre: len(codes) <= MAXLEN() and all(0 <= c < len(ALPHA_E) for c in codes) and 0 <= form < 3 and form == P.get("form", form)
     post: _
     """
     s = decode(codes, ALPHA_E)
@@ -463,17 +463,31 @@ def conditions(tier, seed):
     to = 300 if thorough else 60
     L = 3 if thorough else 2
     out = []
-    out.append(Cond("tojson", "tojson_ok", mode="B", param=dict(maxlen=L), timeout=to,
-                    witnesses=[[[0, 3], 0, False], [[1, 2], 4, True], [[4, 5], 3, False], [[], 6, True]],
-                    bounds=f"strings of <= {L} symbols from {ALPHA_J!r} placed in {NSHAPE} JSON shapes (scalar, list, dict value, dict key, nested, "
-                           "mixed, inside '</script>..<!--'); indent on/off; direct call and through templates with autoescape on/off"))
+    for shape in (range(NSHAPE) if thorough else [None]):
+        p = dict(maxlen=L) if shape is None else dict(maxlen=L, shape=shape)
+        sh = 0 if shape is None else shape
+        out.append(Cond("tojson" if shape is None else f"tojson[shape{shape}]", "tojson_ok", mode="B", param=p, timeout=to,
+                        witnesses=[[[0, 3], sh, False], [[1, 2], 4 if shape is None else sh, True], [[4, 5], 3 if shape is None else sh, False], [[], 6 if shape is None else sh, True]],
+                        bounds=f"strings of <= {L} symbols from {ALPHA_J!r} placed in JSON shape {'0..6' if shape is None else shape} (scalar, list, dict value, dict key, nested, "
+                               "mixed, inside '</script>..<!--'); indent on/off; direct call and through templates with autoescape on/off"))
     for second in (False, True):
-        out.append(Cond(f"xmlattr_key[{'among' if second else 'alone'}]", "xmlattr_key_ok", mode="B", param=dict(maxlen=L, second=second), timeout=to,
-                        witnesses=[[[0, 15], 0, True, second], [[0, 2], 1, True, second], [[11, 13], 2, False, second], [[0], 1, False, second]],
-                        bounds=f"non-empty keys of <= {L} symbols from {KEYA!r} x 3 adversarial values x autospace; key {'among other items' if second else 'alone'}; autoescape on/off"))
-    out.append(Cond("xmlattr_value", "xmlattr_val_ok", mode="B", param=dict(maxlen=L + 1), timeout=to,
-                    witnesses=[[[0, 5, 7], 0], [[2, 3, 4], 1], [[], 0]],
-                    bounds=f"values of <= {L + 1} symbols from {VALA!r} under keys {VKEYS!r}; autoescape on/off"))
+        for vsel, autospace in ([(v, a) for v in range(len(KVALS)) for a in (False, True)] if thorough else [(None, None)]):
+            p = dict(maxlen=L, second=second)
+            nm = f"xmlattr_key[{'among' if second else 'alone'}"
+            if vsel is not None:
+                p.update(vsel=vsel, autospace=autospace)
+                nm += f",v{vsel},{'sp' if autospace else 'nosp'}"
+            v0, a0 = (0, True) if vsel is None else (vsel, autospace)
+            out.append(Cond(nm + "]", "xmlattr_key_ok", mode="B", param=p, timeout=to,
+                            witnesses=[[[0, 15], v0, a0, second], [[0, 2], 1 if vsel is None else vsel, a0, second],
+                                       [[11, 13], 2 if vsel is None else vsel, False if vsel is None else autospace, second], [[0], v0, a0, second]],
+                            bounds=f"non-empty keys of <= {L} symbols from {KEYA!r} x adversarial values {KVALS!r} x autospace; key {'among other items' if second else 'alone'}; autoescape on/off"))
+    for ksel in (range(len(VKEYS)) if thorough else [None]):
+        p = dict(maxlen=L + 1) if ksel is None else dict(maxlen=L + 1, ksel=ksel)
+        k0 = 0 if ksel is None else ksel
+        out.append(Cond("xmlattr_value" if ksel is None else f"xmlattr_value[{VKEYS[ksel]}]", "xmlattr_val_ok", mode="B", param=p, timeout=to,
+                        witnesses=[[[0, 5, 7], k0], [[2, 3, 4], 1 if ksel is None else ksel], [[], k0]],
+                        bounds=f"values of <= {L + 1} symbols from {VALA!r} under keys {VKEYS!r}; autoescape on/off"))
     for xs in range(len(XS)):
         out.append(Cond(f"urlize[xs{xs}]", "urlize_ok", mode="B", param=dict(xs=xs), timeout=to,
                         witnesses=[[0, 0, 0, xs, 0], [1, 2, 2, xs, 2], [15, 3, 1, xs, 3], [7, 1, 1, xs, 1]],
@@ -482,9 +496,12 @@ def conditions(tier, seed):
     out.append(Cond("urlize_trim", "urlize_trim_ok", mode="B", param=dict(maxtrim=64 if thorough else 48), timeout=to,
                     witnesses=[[0, 26], [2, 30], [16, 12]],
                     bounds=f"{len(TEXTS)} adversarial texts x trim_url_limit 0..{63 if thorough else 47}"))
-    out.append(Cond("escape_forceescape", "escape_ok", mode="B", param=dict(maxlen=L + 1), timeout=to,
-                    witnesses=[[[0, 2, 4], 0], [[0, 1], 1], [[2, 5, 6], 2], [[], 0]],
-                    bounds=f"strings of <= {L + 1} symbols from {ALPHA_E!r} as plain str / Markup / object with __html__; filters escape, e, forceescape; autoescape on/off"))
+    for form in (range(3) if thorough else [None]):
+        p = dict(maxlen=L + 1) if form is None else dict(maxlen=L + 1, form=form)
+        fs = [0, 1, 2, 0] if form is None else [form] * 4
+        out.append(Cond("escape_forceescape" if form is None else f"escape_forceescape[form{form}]", "escape_ok", mode="B", param=p, timeout=to,
+                        witnesses=[[[0, 2, 4], fs[0]], [[0, 1], fs[1]], [[2, 5, 6], fs[2]], [[], fs[3]]],
+                        bounds=f"strings of <= {L + 1} symbols from {ALPHA_E!r} as plain str / Markup / object with __html__; filters escape, e, forceescape; autoescape on/off"))
     for spec in MSPECS:
         for asyncm in ((False, True) if spec in ("join", "join_attr") or thorough else (False,)):
             out.append(Cond(f"margs[{spec}{',async' if asyncm else ''}]", "margs_ok", mode="B", param=dict(spec=spec, asyncm=asyncm, maxlen=L), timeout=to,
